@@ -48,7 +48,7 @@ def d1_core(ctx, res, funcs):
 def d1(ctx, res):
     reach = generation_reach(ctx)
     n = d1_core(ctx, res, list(reach))
-    res.floor("generation_graph_functions", len(reach), 120)
+    res.floor("generation_graph_functions", len(reach), 100)
     res.floor("unordered_expression_occurrences", n, 15)
     # positive control
     fctx = fixture_ctx(ctx)
